@@ -17,9 +17,10 @@ GROUPS = [
     _p('C04.O2.timers', 'C04', 'h_timers', 'H_TIMERS', 'two armed timers + one unrelated registration; cancel / clear'),
     _p('C04.O3.wait_process', 'C04', 'h_waitproc', 'H_WAITPROC', 'one foreign cause; the awaited process running / stopped later (and possibly disposed of by its owner before the caller runs again) / already finished; second waiter', also=['C09'], canaries=2,
        replay=replays.demo_replay('c10_waitproc_demo.c')),
-    _p('C04.O3.wait_event', 'C04', 'h_waitevent', 'H_WAITEVENT', 'one foreign cause; the awaited event executes, or is cancelled first', canaries=2),
-] + [_p('C04.O3.guard_wait.%s' % nm, 'C04', 'h_guardwait', 'H_GUARDWAIT', 'another waiter queued; while the caller is suspended the guard is signalled (demand true/false) and %s' % txt, also=['C08'], canaries=cn, extra=['CMV_LITE', 'CMV_KIND=%d' % k])
-     for k, nm, txt, cn in ((0, 'granted', 'nothing else happens', 1), (1, 'timeout', 'a user timer of the caller fires at an arbitrary time', 2), (2, 'interrupt', 'the caller is interrupted with arbitrary priority', 2), (3, 'resume', 'the caller is resumed by a user resume', 2))] + [
+    _p('C04.O3.wait_event', 'C04', 'h_waitevent', 'H_WAITEVENT', 'one foreign cause posted during the wait; the awaited event stays pending, executes, or is cancelled first', canaries=2, extra=['CMV_ONE_CAUSE']),
+    _p('C04.O3.wait_event.pending', 'C04', 'h_waitevent', 'H_WAITEVENT', '<= 2 foreign causes (one before the call, one during the wait); the awaited event stays pending', extra=['CMV_FATE=0'], tier='thorough', timeout=3000),
+    _p('C04.O3.wait_event.executes', 'C04', 'h_waitevent', 'H_WAITEVENT', '<= 2 foreign causes; the awaited event executes while the caller waits', extra=['CMV_FATE=1'], canaries=2, tier='thorough', timeout=3000),
+    _p('C04.O3.wait_event.cancelled', 'C04', 'h_waitevent', 'H_WAITEVENT', '<= 2 foreign causes; the awaited event is cancelled while the caller waits', extra=['CMV_FATE=2'], tier='thorough', timeout=3000),
     _p('C04.O3.guard_wait', 'C04', 'h_guardwait', 'H_GUARDWAIT', 'foreign causes before and during the wait; another waiter or not; the guard signalled or not, demand true/false', also=['C08'], canaries=2),
     _p('C06.O2.guard_signal', 'C06', 'h_guardsignal', 'H_GUARDSIGNAL', '<= 2 waiters with arbitrary priorities and entry times, one observer guard with one waiter; signal / cancel / remove', also=['C13'], observers=1),
     _p('C06.O3.priority_set', 'C06', 'h_prioset', 'H_PRIOSET', 'a process queued at a guard with a competitor, one armed timer, one held object'),
